@@ -326,6 +326,31 @@ class Body:
                     first.append(t)
         return self.reach(first, cut_edges, cut_blocks) if first else set()
 
+    def reach_under(self, constraints, starts=(0,), cut_blocks=()):
+        """Blocks reachable from `starts` when every switch listed in `constraints`
+        ([(switch_list, label), ...]) may only take out-edges whose label is (or contains) the
+        given label.  Exact path sensitivity for matches on values that do not change."""
+        allowed = {}
+        for sws, label in constraints:
+            for sw in sws:
+                ts = set(sw.targets(label))
+                allowed[sw.bb] = allowed[sw.bb] & ts if sw.bb in allowed else ts
+        cut_blocks = set(cut_blocks)
+        seen = set(starts)
+        dq = deque(starts)
+        while dq:
+            b = dq.popleft()
+            if b in cut_blocks:
+                continue
+            for t in self.succ[b]:
+                if b in allowed and t not in allowed[b]:
+                    continue
+                if t in seen or t in cut_blocks:
+                    continue
+                seen.add(t)
+                dq.append(t)
+        return seen
+
     def backreach(self, targets, cut_edges=(), cut_blocks=()):
         cut_edges = set(cut_edges)
         cut_blocks = set(cut_blocks)
